@@ -140,13 +140,23 @@ CHECKS.append(
               "pattern shapes and index widths, not BTreeSet/Term::eq themselves nor result equality across implementations.",
          note="Trusted: rustc MIR; the role-preserving callee list and iterator summaries in rules/roles.py; BTreeSet/HashMap.",
          technique="static: abstract interpretation (role propagation) over MIR + dominator rules"))
+CHECKS.append(
+    dict(id="C07", level="other", engine="E1+E3",
+         text="The blank-blind comparison never reaches the label-sensitive Term::eq/cmp when both sides are quoted triples or both "
+              "blank nodes (reachability under the kind assumption, over every comparison impl of IsoTerm and the helpers they "
+              "call) and recurses component-wise; eq_gn's decision table; early Ok(false) exits, same sort on both sides, helpers "
+              "applied to both arguments, Source/Sink blame, verdict = equality of colour histograms; colour = XOR over an ordered "
+              "set with no order-dependent step. Decides these structural clauses, not hash-collision freedom or completeness of "
+              "the refinement.",
+         note="Trusted: rustc MIR; std sort/hash.",
+         technique="static: assumption-guided CFG reachability + decision-table extraction over MIR"))
 NOT_APPLICABLE = [
     dict(property_id="C17", reason="relativise/resolve inverse is an equation between runtime-computed strings "
          "(byte-offset arithmetic); no structural clause that is a genuine necessary condition without freezing the "
          "code; static analysis in reach cannot decide it"),
 ]
 # properties not yet wired in this commit are listed as not applicable *for now* by gen (see below)
-PENDING = ["C05", "C06", "C07", "C14",
+PENDING = ["C05", "C06", "C14",
            ]
 for p in PENDING:
     if p not in [c["id"] for c in CHECKS]:
